@@ -175,6 +175,52 @@ fn main() {
     // timestamp source precedence
     for b in [None, Some(0u64), Some(1709247600)] { for l in [None, Some(0u64), Some(86400 * 365), Some(4107542399)] { judge_precedence(&ctx, b, l, &mut s4); } }
 
+    // real git: CalVer prints the UTC date of the *commit* time of HEAD (committer date; the author date differs by 500
+    // days and carries a +0900 zone), also when HEAD is detached at the tag
+    let s6 = {
+        use zvharness::gitx::{self, DateMode, Head, Repo, Shape, Tag};
+        for (k, v) in gitx::git_env() { unsafe { std::env::set_var(k, v) }; }
+        let root = gitx::scratch_root();
+        let _ = std::fs::create_dir_all(&root);
+        let instants: Vec<u64> = vec![86400 * 2, 951782400, 951868799, 1230767999, 1230768000, 1709251199, 1709251200, 1735516800, 1767225599, 4107542399, 4107542400, 7258118399];
+        let shape = Shape { parents: vec![vec![], vec![0]], branches: [("main".to_string(), 1)].into_iter().collect(), cur: "main".into(), ops: vec!["commit".into()] };
+        let _ = DateMode::Increasing;
+        let st = instants.par_iter().enumerate().map(|(ti, &t)| {
+            let mut st = Stats::default();
+            let t0 = t - 86400 - 3600; // the tagged commit: previous day, different hour
+            let mut repo = Repo::create(&root, &format!("cal{ti}"), &shape, &[t0 as i64, t as i64]);
+            repo.set_tags(&[Tag { name: "v0.0.7".into(), target: 0, annotated: ti % 2 == 0 }]);
+            for (head, ht) in [(Head::Branch("main".into()), t), (Head::Detached(0), t0)] {
+                repo.set_head(&head);
+                let dir = repo.dir.to_string_lossy().to_string();
+                let c = cal::civil(ht);
+                for preset in zv::CALVER_PRESETS {
+                    st.inc("git_calver_evaluations");
+                    let args = ["version", "-C", &dir, "--schema", preset, "--output-format", "semver"];
+                    let key = format!("git {preset} head {head:?} commit time {ht}");
+                    match zv::run_cli(&args, None) {
+                        Ok(Res::Ok(out)) => { let ok = rsv::parse(&out).map(|p| p.core == [c.year.to_string(), c.month.to_string(), c.day.to_string()]).unwrap_or(false); if !ok { ctx.violation("git_calver_date_mismatch", key, json!({"kind":"git-calver","t":ht,"preset":preset}), format!("printed {out:?}, UTC date of the commit time is {}-{}-{}", c.year, c.month, c.day)); } }
+                        other => ctx.violation("calver_failed", key, json!({"kind":"git-calver","t":ht}), format!("{other:?}")),
+                    }
+                }
+                for p in cal::PATTERNS {
+                    st.inc("git_pattern_evaluations");
+                    let ron = format!("(core:[var(Major),var(Minor),var(Patch)],extra_core:[],build:[str(\"t\"),var(ts(\"{p}\"))])");
+                    let args = ["version", "-C", &dir, "--schema-ron", &ron, "--output-format", "semver"];
+                    let want = format!("0.0.7+t.{}", strip(&cal::field(p, ht)));
+                    match zv::run_cli(&args, None) {
+                        Ok(Res::Ok(out)) => if out != want { ctx.violation("git_pattern_mismatch", format!("git ts({p}) head {head:?} commit time {ht}"), json!({"kind":"git-pattern","t":ht,"pattern":p}), format!("printed {out:?}, expected {want:?}")); },
+                        other => ctx.violation("calver_failed", format!("git ts({p}) @ {ht}"), json!({"kind":"git-pattern","t":ht}), format!("{other:?}")),
+                    }
+                }
+            }
+            repo.remove();
+            st
+        }).reduce(Stats::default, Stats::merge);
+        let _ = std::fs::remove_dir_all(&root);
+        st
+    };
+
     // process conformance: a slice of calver runs through the real binary under two different TZ
     let mut s5 = Stats::default();
     for (i, preset) in zv::CALVER_PRESETS.iter().enumerate() {
@@ -195,14 +241,14 @@ fn main() {
     let d = |()| { let mut st = Stats::default(); for t in 0..2000u64 { for p in cal::PATTERNS { judge_pattern(&ctx, p, t * 40000, &mut st); } } st.digest };
     if d(()) != d(()) { machinery_error("determinism replay diverged"); }
 
-    let all = s1.clone().merge(s2).merge(s3).merge(s4).merge(s5.clone());
+    let all = s1.clone().merge(s2).merge(s3).merge(s4).merge(s5.clone()).merge(s6);
     let mut cov = Coverage::default();
-    cov.states = all.get("pattern_evaluations") / 16 + all.get("calver_evaluations") + all.get("schema_pattern_evaluations") + all.get("precedence_evaluations");
+    cov.states = all.get("pattern_evaluations") / 16 + all.get("calver_evaluations") + all.get("schema_pattern_evaluations") + all.get("precedence_evaluations") + all.get("git_calver_evaluations") + all.get("git_pattern_evaluations");
     cov.transitions = cov.states;
-    cov.evaluations = all.get("pattern_evaluations") + all.get("calver_evaluations") + all.get("schema_pattern_evaluations") + all.get("precedence_evaluations");
+    cov.evaluations = all.get("pattern_evaluations") + all.get("calver_evaluations") + all.get("schema_pattern_evaluations") + all.get("precedence_evaluations") + all.get("git_calver_evaluations") + all.get("git_pattern_evaluations");
     cov.traces_validated = cov.evaluations;
     cov.distinct_nontrivial = s1.get("days") * secs.len() as u64 * 16;
-    cov.rule = format!("resolve_timestamp on every day 1970-01-01..2199-12-31 ({} days) at seconds-of-day {secs:?} x 16 patterns, plus every {} second of 12 boundary days (leap days 2000/2100, year ends, week-53 years); the 11 calver presets through the in-process `zerv version --source none --bumped-timestamp` pipeline on {} days x first/last second; each pattern by name in a --schema-ron in each section; bumped/last timestamp precedence table via stdin RON. The harness runs with TZ=JST-9 so that any local-time dependence is visible. non-trivial = (day, second, pattern) triples of the daily sweep", last_day + 1, if quick { "7th" } else { "single" }, cal_days.len());
+    cov.rule = format!("resolve_timestamp on every day 1970-01-01..2199-12-31 ({} days) at seconds-of-day {secs:?} x 16 patterns, plus every {} second of 12 boundary days (leap days 2000/2100, year ends, week-53 years); the 11 calver presets through the in-process `zerv version --source none --bumped-timestamp` pipeline on {} days x first/last second; each pattern by name in a --schema-ron in each section; bumped/last timestamp precedence table via stdin RON; real git repositories at 12 boundary instants (commit time = committer date, author date 500 days off with a +0900 zone; HEAD on the branch and detached at the tag) x 11 calver presets x 16 patterns. The harness runs with TZ=JST-9 so that any local-time dependence is visible. non-trivial = (day, second, pattern) triples of the daily sweep", last_day + 1, if quick { "7th" } else { "single" }, cal_days.len());
     cov.exhaustive = true;
     cov.samples = vec![json!({"pattern":"0W","t":951782400u64,"expected":cal::field("0W", 951782400)}), json!({"preset":"calver-base","t":4107542399u64}), json!({"schema":"ts(\"compact_datetime\") in build","t":1709247600u64})];
     cov.set("clause_counts", all.to_json());
